@@ -35,6 +35,14 @@ Proof. intros; simpl. rewrite Z.eqb_refl; auto. Qed.
 Lemma set_box_other : forall m s b s', s' <> s -> mbox (set_box m s b) s' = mbox m s'.
 Proof. intros; simpl. destruct (Z.eqb_spec s' s); [contradiction|auto]. Qed.
 
+Lemma bstate_set_state : forall m s v s1,
+  bstate (mbox (set_state m s v) s1) = if s1 =? s then v else bstate (mbox m s1).
+Proof. intros. unfold set_state, set_box. simpl. destruct (s1 =? s); reflexivity. Qed.
+Lemma mbox_emit : forall m x, mbox (emit m x) = mbox m.
+Proof. reflexivity. Qed.
+Ltac bst := rewrite ?bstate_set_state, ?mbox_emit, ?bstate_set_state, ?mbox_emit.
+
+
 (* ---------- persisted / accounted ---------- *)
 Lemma persisted_app : forall c s tr x,
   persisted c s (tr ++ x) =
@@ -148,8 +156,23 @@ Lemma mgr_init_inv : forall c log, Inv c log (mgr_init c).
 Proof.
   intros c log. constructor; simpl.
   - intros; constructor.
-  - intros; lia.
+  - intros s e _ _ Hs H. destruct (Z.eqb_spec s SEQ); unfold SEQ in *; simpl in H; lia.
   - apply all_safe_nil.
+Qed.
+
+(* changes that do not touch boxes >= 0 or the trace *)
+Lemma set_tracked_inv : forall c log m s, Inv c log m -> Inv c log (set_tracked m s).
+Proof. intros c log m s HI. constructor; simpl; apply HI. Qed.
+Lemma set_oof_inv : forall c log m, Inv c log m -> Inv c log (set_oof m).
+Proof. intros c log m HI. constructor; simpl; apply HI. Qed.
+Lemma add_cont_inv : forall c log m cid ids p, Inv c log m -> Inv c log (add_cont m cid ids p).
+Proof. intros c log m cid ids p HI. constructor; simpl; apply HI. Qed.
+Lemma set_box_seq_inv : forall c log m b, Inv c log m -> Inv c log (set_box m SEQ b).
+Proof.
+  intros c log m b HI. constructor; simpl.
+  - intros s Hs. destruct (Z.eqb_spec s SEQ); [unfold SEQ in *; lia|]. apply (inv_pend _ _ _ HI); auto.
+  - intros s e H1 H2 H3 H4. destruct (Z.eqb_spec s SEQ); [unfold SEQ in *; lia|]. apply (inv_cov _ _ _ HI); auto.
+  - apply (inv_safe _ _ _ HI).
 Qed.
 
 (* ---------- a box apply segment ---------- *)
@@ -157,12 +180,10 @@ Lemma delivers_nonpersist : forall s (us : list upd),
   forallb (fun ev => negb (is_persist ev)) (map (fun u => Deliver s (uid u)) us) = true.
 Proof. induction us; simpl; auto. Qed.
 
-Lemma push_item_inv : forall c log m e,
-  wf_log log -> In e log -> Inv c log m -> Inv c log (push_item c m e).
+Lemma box_item_inv : forall c log m e,
+  wf_log log -> In e log -> 0 <= eseq e -> Inv c log m -> Inv c log (box_item m (eseq e) e).
 Proof.
-  intros c log m e Hwf Hin HI. unfold push_item.
-  destruct ((0 <=? eseq e) && (eseq e <? nseq c)) eqn:Hrange; [|exact HI].
-  apply andb_prop in Hrange. destruct Hrange as [Hr0 _]. apply Z.leb_le in Hr0.
+  intros c log m e Hwf Hin Hr0 HI. unfold box_item.
   set (s := eseq e) in *.
   assert (Hfl : from_log log s (upd_of e)) by (exists e; auto).
   assert (Hpn : pend_nz (mbox m s)).
@@ -216,21 +237,6 @@ Lemma find_entry_in : forall log id e, In e (find_entry log id) -> In e log.
 Proof.
   intros log id e H. unfold find_entry in H. destruct (find _ log) eqn:F; simpl in H; [|tauto].
   destruct H as [<-|[]]. apply find_some in F. tauto.
-Qed.
-
-Lemma push_inv : forall c log m ids, wf_log log -> Inv c log m -> Inv c log (push c log m ids).
-Proof.
-  intros c log m ids Hwf HI. unfold push.
-  set (items := isort route_key (flat_map (find_entry log) ids)).
-  assert (Hitems : forall e, In e items -> In e log).
-  { intros e He. unfold items in He. rewrite isort_in in He. rewrite in_flat_map in He.
-    destruct He as (id & _ & He). eapply find_entry_in; eauto. }
-  apply emit_nonpersist_inv.
-  - induction (filter (fun e => eseq e <? 0) items); simpl; auto.
-  - clearbody items. revert m HI. induction items as [|e t IH]; intros m HI; simpl; auto.
-    apply IH.
-    + intros; apply Hitems; simpl; auto.
-    + apply push_item_inv; auto. apply Hitems; simpl; auto.
 Qed.
 
 (* ---------- differences ---------- *)
@@ -318,20 +324,24 @@ Proof.
   intros A f l x H. destruct (f x) eqn:E; [right|left]; rewrite filter_In; split; auto. rewrite E; auto.
 Qed.
 
+Lemma seq_cond : forall (P : Prop), 0 <= SEQ -> P.
+Proof. unfold SEQ; intros; lia. Qed.
+
 Lemma get_diff_inv : forall fuel c log vis m,
   wf_log log -> Inv c log m -> Inv c log (get_diff fuel c log vis m).
 Proof.
   induction fuel as [|f IH]; intros c log vis m Hwf HI.
-  - constructor; simpl; apply HI.
+  - apply set_oof_inv; auto.
   - cbn [get_diff]. cbv zeta.
-    set (m1 := clear_gaps (clear_gaps m 0) 1).
-    assert (H1 : Inv c log m1) by (apply clear_gaps_inv, clear_gaps_inv, HI).
+    set (m1 := clear_gaps (clear_gaps (clear_gaps m 0) 1) SEQ).
+    assert (H1 : Inv c log m1) by (repeat apply clear_gaps_inv; exact HI).
     set (reqp := bstate (mbox m1 0)). set (reqq := bstate (mbox m1 1)).
-    destruct (pend log 0 reqp (vis 0) ++ pend log 1 reqq (vis 1)) as [|e0 l0] eqn:Epq; [exact H1|].
+    destruct (pend log 0 reqp (vis 0) ++ pend log 1 reqq (vis 1)) as [|e0 l0] eqn:Epq.
+    { apply set_state_inv; auto. intros e _ _ H0. apply (seq_cond _ H0). }
     destruct ((0 <? tl_thr c) && (vis 0 - reqp >? tl_thr c)).
     + apply IH; auto. apply toolong_inv; auto.
-    + destruct (slice_cut (slice_lim c) (pend log 0 reqp (vis 0)) (vis 0)) as [cut sliced].
-      set (pp' := pend log 0 reqp cut). set (qq := pend log 1 reqq (vis 1)).
+    + destruct (slice_cut2 (slice_lim c) log vis reqp reqq) as [[cut cutq] sliced].
+      set (pp' := pend log 0 reqp cut). set (qq := pend log 1 reqq cutq).
       set (D := delivers (filter (fun e => negb (is_msg e)) pp' ++ filter (fun e => negb (is_msg e)) qq)
                 ++ delivers (filter is_msg pp' ++ filter is_msg qq)).
       assert (HD0 : forall e, In e pp' -> In (Deliver 0 (eid e)) D).
@@ -345,28 +355,30 @@ Proof.
       assert (H2 : Inv c log (emit m1 D)).
       { apply emit_nonpersist_inv; auto. unfold D. apply forallb_app'; apply delivers_nonpersist'. }
       assert (H3 : Inv c log (emit (emit m1 D) [Persist 0 cut])).
-      { apply emit_persist_inv; auto. intros. simpl. eapply diff_cov; eauto. }
-      assert (H4 : Inv c log (emit (emit (emit m1 D) [Persist 0 cut]) [Persist 1 (vis 1)])).
-      { apply emit_persist_inv; auto. intros. simpl. apply accounted_app. eapply diff_cov; eauto. }
+      { apply emit_persist_inv; auto. intros. rewrite mtr_emit. eapply (diff_cov c log m1 0 cut D); eauto. }
+      assert (H4 : Inv c log (emit (emit (emit m1 D) [Persist 0 cut]) [Persist 1 cutq])).
+      { apply emit_persist_inv; auto. intros. rewrite !mtr_emit. apply accounted_app.
+        eapply (diff_cov c log m1 1 cutq D); eauto. }
       rewrite !emit_emit in H4.
-      replace (D ++ [Persist 0 cut] ++ [Persist 1 (vis 1)]) with
+      replace (D ++ [Persist 0 cut] ++ [Persist 1 cutq]) with
           (delivers (filter (fun e => negb (is_msg e)) pp' ++ filter (fun e => negb (is_msg e)) qq)
-           ++ delivers (filter is_msg pp' ++ filter is_msg qq) ++ [Persist 0 cut; Persist 1 (vis 1)]) in H4
+           ++ delivers (filter is_msg pp' ++ filter is_msg qq) ++ [Persist 0 cut; Persist 1 cutq]) in H4
         by (unfold D; rewrite <- app_assoc; reflexivity).
       match goal with |- Inv _ _ (if sliced then get_diff f c log vis ?M else ?M) => assert (H5 : Inv c log M) end.
-      { assert (HA : forall s1 e, (forall e1, In e1 (pend log s1 (bstate (mbox m1 s1)) (if s1 =? 0 then cut else vis 1)) -> In (Deliver s1 (eid e1)) D) ->
-                 In e log -> eseq e = s1 -> 0 <= s1 -> base c s1 < epos e <= (if s1 =? 0 then cut else vis 1) ->
+      { assert (HA : forall s1 e, (forall e1, In e1 (pend log s1 (bstate (mbox m1 s1)) (if s1 =? 0 then cut else cutq)) -> In (Deliver s1 (eid e1)) D) ->
+                 In e log -> eseq e = s1 -> 0 <= s1 -> base c s1 < epos e <= (if s1 =? 0 then cut else cutq) ->
                  accounted s1 e (mtr m1 ++ delivers (filter (fun e => negb (is_msg e)) pp' ++ filter (fun e => negb (is_msg e)) qq)
-                                 ++ delivers (filter is_msg pp' ++ filter is_msg qq) ++ [Persist 0 cut; Persist 1 (vis 1)])).
+                                 ++ delivers (filter is_msg pp' ++ filter is_msg qq) ++ [Persist 0 cut; Persist 1 cutq])).
         { intros s1 e HDs Ha Hb Hc Hd.
           replace (mtr m1 ++ delivers (filter (fun e => negb (is_msg e)) pp' ++ filter (fun e => negb (is_msg e)) qq)
-                   ++ delivers (filter is_msg pp' ++ filter is_msg qq) ++ [Persist 0 cut; Persist 1 (vis 1)])
-            with ((mtr m1 ++ D) ++ [Persist 0 cut; Persist 1 (vis 1)])
+                   ++ delivers (filter is_msg pp' ++ filter is_msg qq) ++ [Persist 0 cut; Persist 1 cutq])
+            with ((mtr m1 ++ D) ++ [Persist 0 cut; Persist 1 cutq])
             by (unfold D; rewrite <- !app_assoc; reflexivity).
           apply accounted_app. eapply diff_cov; eauto. }
-        apply set_state_inv; [apply set_state_inv; [exact H4|]|].
+        apply set_state_inv; [apply set_state_inv; [apply set_state_inv; [exact H4|]|]|].
         - intros e Ha Hb Hc Hd. rewrite mtr_emit. apply (HA 0 e); auto.
-        - intros e Ha Hb Hc Hd. rewrite mtr_set_state, mtr_emit. apply (HA 1 e); auto. }
+        - intros e Ha Hb Hc Hd. rewrite mtr_set_state, mtr_emit. apply (HA 1 e); auto.
+        - intros e _ _ H0. apply (seq_cond _ H0). }
       destruct sliced; auto.
 Qed.
 
@@ -374,7 +386,7 @@ Lemma chan_diff_inv : forall fuel c log vis s m,
   wf_log log -> Inv c log m -> Inv c log (chan_diff fuel c log vis s m).
 Proof.
   induction fuel as [|f IH]; intros c log vis s m Hwf HI.
-  - constructor; simpl; apply HI.
+  - apply set_oof_inv; auto.
   - cbn [chan_diff]. cbv zeta.
     set (m1 := clear_gaps m s).
     assert (H1 : Inv c log m1) by (apply clear_gaps_inv, HI).
@@ -415,16 +427,59 @@ Proof.
         destruct sliced; auto.
 Qed.
 
+Lemma push_item_inv : forall c log vis m e,
+  wf_log log -> In e log -> Inv c log m -> Inv c log (push_item c log vis m e).
+Proof.
+  intros c log vis m e Hwf Hin HI. unfold push_item.
+  destruct ((0 <=? eseq e) && (eseq e <? nseq c)) eqn:Hrange; [|exact HI].
+  apply andb_prop in Hrange. destruct Hrange as [Hr0 _]. apply Z.leb_le in Hr0.
+  destruct ((eseq e <? 2) || mtracked m (eseq e)).
+  - apply box_item_inv; auto.
+  - destruct (ustart (upd_of e) =? base c (eseq e)); [|exact HI].
+    apply box_item_inv; auto. apply chan_diff_inv; auto. apply set_tracked_inv.
+    apply emit_persist_inv; auto. intros; lia.
+Qed.
+
+Lemma push_inv : forall c log vis m ids, wf_log log -> Inv c log m -> Inv c log (push c log vis m ids).
+Proof.
+  intros c log vis m ids Hwf HI. unfold push.
+  set (items := isort route_key (flat_map (find_entry log) ids)).
+  assert (Hitems : forall e, In e items -> In e log).
+  { intros e He. unfold items in He. rewrite isort_in in He. rewrite in_flat_map in He.
+    destruct He as (id & _ & He). eapply find_entry_in; eauto. }
+  apply emit_nonpersist_inv.
+  - induction (filter (fun e => eseq e <? 0) items); simpl; auto.
+  - clearbody items. revert m HI. induction items as [|e t IH]; intros m HI; simpl; auto.
+    apply IH.
+    + intros; apply Hitems; simpl; auto.
+    + apply push_item_inv; auto. apply Hitems; simpl; auto.
+Qed.
+
+Lemma pushc_apply_inv : forall c log vis m cid sq ids p,
+  wf_log log -> Inv c log m -> Inv c log (fst (fst (pushc_apply c log vis m cid sq ids p))).
+Proof.
+  intros c log vis m cid sq ids p Hwf HI. unfold pushc_apply.
+  destruct (sq =? 0); [simpl; apply push_inv; auto|].
+  destruct (handle _ _) as [sb evs]. simpl.
+  assert (H0 : Inv c log (add_cont m cid ids p)) by (apply add_cont_inv; auto).
+  revert H0. generalize (add_cont m cid ids p). induction (dlv_upds evs) as [|u t IHl]; intros m0 H0; simpl; auto.
+  apply IHl. apply push_inv; auto.
+Qed.
+
 Lemma mstep_inv : forall c log m o, wf_log log -> Inv c log m -> Inv c log (mstep c log m o).
 Proof.
   intros c log m o Hwf HI. destruct o; cbn [mstep].
-  - apply push_inv; auto.
+  - pose proof (pushc_apply_inv c log vis m cid sq ids p Hwf HI) as H.
+    destruct (pushc_apply c log vis m cid sq ids p) as [[m1 rc] sb]. simpl in H.
+    assert (H2 : Inv c log (if rc then get_diff (fuel_of log) c log vis m1 else m1)).
+    { destruct rc; auto. apply get_diff_inv; auto. }
+    destruct sb; auto. apply set_box_seq_inv; auto.
   - apply get_diff_inv; auto.
-  - destruct ((2 <=? s) && (s <? nseq c)); auto. apply chan_diff_inv; auto.
+  - destruct (_ && _); auto. apply chan_diff_inv; auto.
   - apply get_diff_inv; auto.
-  - destruct ((2 <=? s) && (s <? nseq c)); auto. apply chan_diff_inv; auto.
+  - destruct (_ && _); auto. apply chan_diff_inv; auto.
   - assert (H : Inv c log (get_diff (fuel_of log) c log vis m)) by (apply get_diff_inv; auto).
-    revert H. generalize (get_diff (fuel_of log) c log vis m). induction (chan_seqs c); intros m0 H0; cbn [fold_left]; auto.
+    revert H. generalize (get_diff (fuel_of log) c log vis m). induction (filter (tracked0 c) (chan_seqs c)); intros m0 H0; cbn [fold_left]; auto.
     apply IHl. apply chan_diff_inv; auto.
 Qed.
 
@@ -448,6 +503,12 @@ Proof.
   intros lim pp vis cut H. unfold slice_cut in H.
   destruct ((0 <? lim) && (lim <? Z.of_nat (length pp))); inversion H; auto.
 Qed.
+Lemma slice_cut2_final : forall lim log vis rp rq cut cutq,
+  slice_cut2 lim log vis rp rq = (cut, cutq, false) -> cut = vis 0 /\ cutq = vis 1.
+Proof.
+  intros lim log vis rp rq cut cutq H. unfold slice_cut2 in H.
+  destruct ((0 <? lim) && _); inversion H; auto.
+Qed.
 
 Lemma get_diff_drained : forall fuel c log vis m,
   moof (get_diff fuel c log vis m) = false ->
@@ -457,13 +518,17 @@ Proof.
   induction fuel as [|f IH]; intros c log vis m.
   - simpl. discriminate.
   - cbn [get_diff]. cbv zeta.
-    set (m1 := clear_gaps (clear_gaps m 0) 1).
+    set (m1 := clear_gaps (clear_gaps (clear_gaps m 0) 1) SEQ).
     set (reqp := bstate (mbox m1 0)). set (reqq := bstate (mbox m1 1)).
-    destruct (pend log 0 reqp (vis 0) ++ pend log 1 reqq (vis 1)) as [|e0 l0] eqn:Epq; [intros _; exact Epq|].
+    destruct (pend log 0 reqp (vis 0) ++ pend log 1 reqq (vis 1)) as [|e0 l0] eqn:Epq.
+    { intros _. rewrite !bstate_set_state. change (0 =? SEQ) with false. change (1 =? SEQ) with false. exact Epq. }
     destruct ((0 <? tl_thr c) && (vis 0 - reqp >? tl_thr c)); [apply IH|].
-    destruct (slice_cut (slice_lim c) (pend log 0 reqp (vis 0)) (vis 0)) as [cut sliced] eqn:Ec.
+    destruct (slice_cut2 (slice_lim c) log vis reqp reqq) as [[cut cutq] sliced] eqn:Ec.
     destruct sliced; [apply IH|].
-    intros _. apply slice_cut_final in Ec. subst cut. simpl. rewrite !pend_same_nil. reflexivity.
+    intros _. apply slice_cut2_final in Ec. destruct Ec as [-> ->]. rewrite !bstate_set_state, !mbox_emit.
+    change (0 =? SEQ) with false. change (1 =? SEQ) with false. change (0 =? 1) with false.
+    change (1 =? 1) with true. change (0 =? 0) with true. cbv iota.
+    rewrite !pend_same_nil. reflexivity.
 Qed.
 
 Lemma chan_diff_drained : forall fuel c log vis s m,
@@ -515,15 +580,16 @@ Qed.
 
 (* C02, channels *)
 Theorem no_loss_channel : forall c log ops vis s,
-  wf_log log -> 2 <= s < nseq c ->
+  wf_log log -> 2 <= s < nseq c -> mtracked (mrun c log ops) s = true ->
   let m := mrun c log (ops ++ [MChanTooLong vis s]) in
   moof m = false ->
   forall e, In e log -> eseq e = s -> base c s < epos e <= vis s -> accounted s e (mtr m).
 Proof.
-  intros c log ops vis s Hwf Hs m Hf e H1 H2 H4.
+  intros c log ops vis s Hwf Hs Htr m Hf e H1 H2 H4.
   assert (HI : Inv c log m) by (apply mrun_inv; auto).
   unfold m in *. rewrite mrun_snoc in *. cbn [mstep] in *.
-  assert (E : (2 <=? s) && (s <? nseq c) = true) by (rewrite andb_true_iff, Z.leb_le, Z.ltb_lt; lia).
+  assert (E : (2 <=? s) && (s <? nseq c) && mtracked (mrun c log ops) s = true)
+    by (rewrite Htr, !andb_true_iff, Z.leb_le, Z.ltb_lt; repeat split; auto; lia).
   rewrite E in *.
   pose proof (chan_diff_drained _ _ _ _ _ _ Hf) as Hd.
   eapply drained_cov; eauto; lia.
@@ -544,7 +610,7 @@ Proof. intros c log ops pre post Hwf E. eapply (inv_safe c log _ (mrun_inv c log
 (* C03 restart: crash after any prefix, restart from the persisted positions of that prefix,
    recover: both runs together account for the whole log up to the horizon *)
 Definition rebase (c : config) (b : Z -> Z) : config :=
-  {| nseq := nseq c; base := b; slice_lim := slice_lim c; tl_thr := tl_thr c;
+  {| nseq := nseq c; base := b; tracked0 := tracked0 c; slice_lim := slice_lim c; tl_thr := tl_thr c;
      cslice_lim := cslice_lim c; ctl_thr := ctl_thr c |}.
 
 Theorem restart_common : forall c log ops pre post ops2 vis,
@@ -564,25 +630,36 @@ Qed.
 Theorem restart_channel : forall c log ops pre post ops2 vis s,
   wf_log log -> 2 <= s < nseq c -> mtr (mrun c log ops) = pre ++ post ->
   let c2 := rebase c (fun s => persisted c s pre) in
+  mtracked (mrun c2 log ops2) s = true ->
   let m2 := mrun c2 log (ops2 ++ [MChanTooLong vis s]) in
   moof m2 = false ->
   forall e, In e log -> eseq e = s -> base c s < epos e <= vis s ->
             accounted s e pre \/ accounted s e (mtr m2).
 Proof.
-  intros c log ops pre post ops2 vis s Hwf Hs E c2 m2 Hf e H1 H2 H4.
+  intros c log ops pre post ops2 vis s Hwf Hs E c2 Htr m2 Hf e H1 H2 H4.
   destruct (Z_le_gt_dec (epos e) (persisted c s pre)).
   - left. eapply prefix_safe; eauto; lia.
-  - right. apply (no_loss_channel c2 log ops2 vis s Hwf Hs Hf e H1 H2). simpl. lia.
+  - right. apply (no_loss_channel c2 log ops2 vis s Hwf Hs Htr Hf e H1 H2). simpl. lia.
 Qed.
 
 (* ---------- manager-level at most once (C01 at the handler) ---------- *)
 Definition op_vis (o : mop) : Z -> Z :=
-  match o with MPush v _ | MTooLong v | MChanTooLong v _ | MTimerCommon v | MTimerChan v _ | MStartup v => v end.
+  match o with MPushC v _ _ _ _ | MTooLong v | MChanTooLong v _ | MTimerCommon v | MTimerChan v _ | MStartup v => v end.
+(* a container that triggers a recovery (updatePtsChanged) does so with positions not beyond the horizon *)
+Definition mid_ok (c : config) (log : list entry) (m : mgr) (o : mop) : Prop :=
+  match o with
+  | MPushC vis cid sq ids p =>
+    snd (fst (pushc_apply c log vis m cid sq ids p)) = true ->
+    bstate (mbox (fst (fst (pushc_apply c log vis m cid sq ids p))) 0) <= vis 0 /\
+    bstate (mbox (fst (fst (pushc_apply c log vis m cid sq ids p))) 1) <= vis 1
+  | _ => True
+  end.
 (* the server's horizon is never behind the client's position *)
 Fixpoint vis_ok (c : config) (log : list entry) (m : mgr) (ops : list mop) : Prop :=
   match ops with
   | [] => True
-  | o :: t => (forall s, 0 <= s < Z.max 2 (nseq c) -> bstate (mbox m s) <= op_vis o s) /\ vis_ok c log (mstep c log m o) t
+  | o :: t => (forall s, 0 <= s < Z.max 2 (nseq c) -> bstate (mbox m s) <= op_vis o s) /\ mid_ok c log m o /\
+              vis_ok c log (mstep c log m o) t
   end.
 
 Record Inv2 (log : list entry) (m : mgr) : Prop := {
@@ -692,70 +769,6 @@ Proof.
       * destruct (B v Hv) as (e' & D1 & D2 & D3 & D4). exists e'. repeat split; auto; lia.
 Qed.
 
-Lemma push_item_inv2 : forall c log m e,
-  wf_log log -> NoDup (map eid log) -> In e log -> Inv c log m -> Inv2 log m -> Inv2 log (push_item c m e).
-Proof.
-  intros c log m e Hwf Hu Hin HI H2. unfold push_item.
-  destruct ((0 <=? eseq e) && (eseq e <? nseq c)) eqn:Hrange; [|exact H2].
-  apply andb_prop in Hrange. destruct Hrange as [Hr0 _]. apply Z.leb_le in Hr0.
-  set (s := eseq e) in *.
-  assert (Hfl : from_log log s (upd_of e)) by (exists e; auto).
-  assert (Hpn : pend_nz (mbox m s)).
-  { unfold pend_nz. eapply Forall_impl; [|apply (inv_pend _ _ _ HI s Hr0)].
-    intros u Hu0. eapply from_log_nz; eauto. }
-  pose proof (handle_spec (mbox m s) (upd_of e) Hpn (from_log_nz _ _ _ Hwf Hr0 Hfl)) as HS.
-  destruct (handle (mbox m s) (upd_of e)) as [b' evs]. destruct HS as [Hok _].
-  destruct Hok as [[-> Hst]|(s' & us & -> & Hne & Hch & Hst & _ & Hall)].
-  - destruct Hst as [Hst|(z & Hz & _)]; [|discriminate].
-    apply (inv2_step log m _ []); auto.
-    + intros s1 Hs1. simpl. destruct (Z.eqb_spec s1 s) as [->|]; lia.
-    + simpl. constructor.
-    + intros s1 id [].
-  - assert (Hus : Forall (from_log log s) us).
-    { apply Hall; [apply (inv_pend _ _ _ HI s Hr0)|exact Hfl]. }
-    destruct (chain_ids log s us _ _ Hwf Hu Hr0 Hus Hch) as (N & M & B).
-    assert (Esd : seq_delivers (evs_trace s [Dlv s' us]) = map (fun u => (s, uid u)) us).
-    { simpl. rewrite app_nil_r, seq_delivers_app.
-      replace (seq_delivers (if (s =? 1) && (s' =? 0) then [] else [Persist s s'])) with (@nil (Z * Z))
-        by (destruct ((s =? 1) && (s' =? 0)); reflexivity).
-      rewrite app_nil_r. clear - Hr0. induction us; simpl; auto.
-      destruct (Z.leb_spec 0 s); [|lia]. simpl. f_equal. exact IHus. }
-    apply (inv2_step log m _ (evs_trace s [Dlv s' us])); auto.
-    + intros s1 Hs1. simpl. destruct (Z.eqb_spec s1 s) as [->|]; lia.
-    + rewrite Esd. clear - N. induction us; simpl in *; [constructor|].
-      inversion N; subst. constructor; auto. rewrite in_map_iff. intros (v & Ev & Hv).
-      inversion Ev. apply H1. rewrite in_map_iff. eauto.
-    + intros s1 id Hi. rewrite Esd in Hi. rewrite in_map_iff in Hi. destruct Hi as (u & Eu & Hu1).
-      inversion Eu; subst. destruct (B u Hu1) as (e' & D1 & D2 & D3 & D4).
-      exists e'. simpl. rewrite Z.eqb_refl. repeat split; auto; lia.
-Qed.
-
-Lemma push_inv2 : forall c log m ids,
-  wf_log log -> NoDup (map eid log) -> Inv c log m -> Inv2 log m -> Inv2 log (push c log m ids).
-Proof.
-  intros c log m ids Hwf Hu HI H2. unfold push.
-  set (items := isort route_key (flat_map (find_entry log) ids)).
-  assert (Hitems : forall e, In e items -> In e log).
-  { intros e He. unfold items in He. rewrite isort_in in He. rewrite in_flat_map in He.
-    destruct He as (id & _ & He). eapply find_entry_in; eauto. }
-  assert (Hfold : Inv c log (fold_left (push_item c) items m) /\ Inv2 log (fold_left (push_item c) items m)).
-  { clearbody items. revert m HI H2. induction items as [|e t IH]; intros m HI H2; simpl; auto.
-    apply IH.
-    - intros; apply Hitems; simpl; auto.
-    - apply push_item_inv; auto. apply Hitems; simpl; auto.
-    - apply push_item_inv2; auto. apply Hitems; simpl; auto. }
-  destruct Hfold as [_ HF].
-  apply (inv2_step log (fold_left (push_item c) items m) _ (map (fun e => Deliver (-1) (eid e)) (filter (fun e => eseq e <? 0) items))); auto.
-  - intros; simpl; lia.
-  - assert (E : seq_delivers (map (fun e => Deliver (-1) (eid e)) (filter (fun e => eseq e <? 0) items)) = []).
-    { induction (filter (fun e => eseq e <? 0) items); simpl; auto. }
-    rewrite E. constructor.
-  - intros s id Hi.
-    assert (E : seq_delivers (map (fun e => Deliver (-1) (eid e)) (filter (fun e => eseq e <? 0) items)) = []).
-    { induction (filter (fun e => eseq e <? 0) items); simpl; auto. }
-    rewrite E in Hi. destruct Hi.
-Qed.
-
 Lemma filter_perm : forall A (f : A -> bool) l, Permutation (filter (fun e => negb (f e)) l ++ filter f l) l.
 Proof.
   induction l as [|a t IH]; simpl; auto.
@@ -796,12 +809,33 @@ Proof.
     exists e. destruct (HLp e He) as (A & B & C). repeat split; auto.
 Qed.
 
-Lemma bstate_set_state : forall m s v s1,
-  bstate (mbox (set_state m s v) s1) = if s1 =? s then v else bstate (mbox m s1).
-Proof. intros. unfold set_state, set_box. simpl. destruct (s1 =? s); reflexivity. Qed.
-Lemma mbox_emit : forall m x, mbox (emit m x) = mbox m.
-Proof. reflexivity. Qed.
-Ltac bst := rewrite ?bstate_set_state, ?mbox_emit, ?bstate_set_state, ?mbox_emit.
+Lemma bstate_clear_gaps : forall m s s1, bstate (mbox (clear_gaps m s) s1) = bstate (mbox m s1).
+Proof. intros. unfold clear_gaps, set_box. simpl. destruct (s1 =? s) eqn:E; [apply Z.eqb_eq in E; subst|]; reflexivity. Qed.
+
+Lemma max_pos_bounds : forall s l d hi,
+  d <= hi -> (forall e, In e l -> eseq e = s -> epos e <= hi) -> d <= max_pos s d l <= hi.
+Proof.
+  unfold max_pos. induction l as [|a t IH]; intros d hi Hd Hl; simpl; [lia|].
+  destruct (Z.eqb_spec (eseq a) s).
+  - assert (epos a <= hi) by (apply Hl; simpl; auto).
+    assert (Z.max d (epos a) <= fold_left (fun acc e => if eseq e =? s then Z.max acc (epos e) else acc) t (Z.max d (epos a)) <= hi); [|lia].
+    apply IH; [lia|]. intros; apply Hl; simpl; auto.
+  - apply IH; auto. intros; apply Hl; simpl; auto.
+Qed.
+Lemma firstn_In' : forall A n (l : list A) x, In x (firstn n l) -> In x l.
+Proof. induction n; intros l x H; simpl in H; [destruct H|]. destruct l; simpl in *; [destruct H|]. destruct H; auto. Qed.
+Lemma slice_cut2_bounds : forall lim log vis rp rq cut cutq sl,
+  rp <= vis 0 -> rq <= vis 1 -> slice_cut2 lim log vis rp rq = (cut, cutq, sl) ->
+  rp <= cut <= vis 0 /\ rq <= cutq <= vis 1.
+Proof.
+  intros lim log vis rp rq cut cutq sl H0 H1 H. unfold slice_cut2 in H.
+  destruct ((0 <? lim) && _); inversion H; subst; [|lia].
+  assert (Hin : forall e, In e (firstn (Z.to_nat lim) (filter (in_range vis rp rq) log)) -> in_range vis rp rq e = true).
+  { intros e He. apply firstn_In' in He. rewrite filter_In in He. tauto. }
+  split; apply max_pos_bounds; auto; intros e He Hs; specialize (Hin e He); unfold in_range in Hin;
+    rewrite Hs in Hin; simpl in Hin; rewrite ?orb_true_iff, ?andb_true_iff in Hin;
+    rewrite ?Z.ltb_lt, ?Z.leb_le in Hin; intuition (try discriminate; lia).
+Qed.
 
 Lemma get_diff_inv2 : forall fuel c log vis m,
   wf_log log -> NoDup (map eid log) -> Inv2 log m ->
@@ -811,10 +845,9 @@ Proof.
   induction fuel as [|f IH]; intros c log vis m Hwf Hu H2 Hv0 Hv1.
   - constructor; simpl; apply H2.
   - cbn [get_diff]. cbv zeta.
-    set (m1 := clear_gaps (clear_gaps m 0) 1).
+    set (m1 := clear_gaps (clear_gaps (clear_gaps m 0) 1) SEQ).
     assert (Hb : forall s, bstate (mbox m1 s) = bstate (mbox m s)).
-    { intros s. unfold m1. simpl. destruct (Z.eqb_spec s 1); simpl; [subst; reflexivity|].
-      destruct (Z.eqb_spec s 0); simpl; [subst; reflexivity|reflexivity]. }
+    { intros s. unfold m1. rewrite !bstate_clear_gaps. reflexivity. }
     assert (H1 : Inv2 log m1).
     { apply (inv2_step log m m1 []); auto.
       - intros s _. rewrite Hb. lia.
@@ -824,23 +857,21 @@ Proof.
     set (reqp := bstate (mbox m1 0)). set (reqq := bstate (mbox m1 1)).
     assert (Hrp : reqp <= vis 0) by (unfold reqp; rewrite Hb; auto).
     assert (Hrq : reqq <= vis 1) by (unfold reqq; rewrite Hb; auto).
-    destruct (pend log 0 reqp (vis 0) ++ pend log 1 reqq (vis 1)) as [|e0 l0] eqn:Epq; [exact H1|].
+    destruct (pend log 0 reqp (vis 0) ++ pend log 1 reqq (vis 1)) as [|e0 l0] eqn:Epq.
+    { apply (inv2_step log m1 _ []); auto.
+      - intros s Hs. bst. destruct (Z.eqb_spec s SEQ); [unfold SEQ in *; lia|lia].
+      - simpl. rewrite app_nil_r. reflexivity.
+      - simpl. constructor.
+      - intros s id []. }
     destruct ((0 <? tl_thr c) && (vis 0 - reqp >? tl_thr c)).
     + apply IH; auto; try (bst; simpl; try fold reqq; lia).
       apply (inv2_step log m1 _ [TooLong 0; Persist 0 (vis 0)]); auto.
       * intros s _. bst. destruct (Z.eqb_spec s 0); [subst; fold reqp; lia|lia].
       * simpl. constructor.
       * intros s id [].
-    + destruct (slice_cut (slice_lim c) (pend log 0 reqp (vis 0)) (vis 0)) as [cut sliced] eqn:Ec.
-      assert (Hcut : reqp <= cut <= vis 0).
-      { unfold slice_cut in Ec.
-        destruct ((0 <? slice_lim c) && (slice_lim c <? Z.of_nat (length (pend log 0 reqp (vis 0))))) eqn:Eb;
-          inversion Ec; subst; [|lia].
-        apply andb_prop in Eb. destruct Eb as [Eb1 Eb2]. apply Z.ltb_lt in Eb1, Eb2.
-        assert (Hn : In (nth (Z.to_nat (slice_lim c - 1)) (pend log 0 reqp (vis 0)) dflt_entry) (pend log 0 reqp (vis 0))).
-        { apply nth_In. lia. }
-        rewrite pend_in in Hn. lia. }
-      set (pp' := pend log 0 reqp cut). set (qq := pend log 1 reqq (vis 1)).
+    + destruct (slice_cut2 (slice_lim c) log vis reqp reqq) as [[cut cutq] sliced] eqn:Ec.
+      destruct (slice_cut2_bounds _ _ _ _ _ _ _ _ Hrp Hrq Ec) as [Hcut Hcutq].
+      set (pp' := pend log 0 reqp cut). set (qq := pend log 1 reqq cutq).
       set (Lo := filter (fun e => negb (is_msg e)) pp' ++ filter (fun e => negb (is_msg e)) qq).
       set (Lm := filter is_msg pp' ++ filter is_msg qq).
       assert (HP : Permutation (Lo ++ Lm) (pp' ++ qq)).
@@ -854,11 +885,11 @@ Proof.
         apply NoDup_app_intro; try (apply pend_nodup; auto).
         intros x Hx Hy. unfold pp' in Hx. unfold qq in Hy. rewrite pend_in in Hx, Hy. lia. }
       assert (HL : forall e, In e (Lo ++ Lm) -> In e log /\ 0 <= eseq e /\ bstate (mbox m1 (eseq e)) < epos e
-                                        /\ ((eseq e = 0 /\ epos e <= cut) \/ (eseq e = 1 /\ epos e <= vis 1))).
+                                        /\ ((eseq e = 0 /\ epos e <= cut) \/ (eseq e = 1 /\ epos e <= cutq))).
       { intros e He. eapply Permutation_in in He; [|exact HP]. apply in_app_or in He.
         destruct He as [He|He]; [unfold pp' in He|unfold qq in He]; rewrite pend_in in He;
           destruct He as (A & B & C); rewrite B; fold reqp; fold reqq; repeat split; auto; try lia. }
-      set (X := delivers Lo ++ delivers Lm ++ [Persist 0 cut; Persist 1 (vis 1)]).
+      set (X := delivers Lo ++ delivers Lm ++ [Persist 0 cut; Persist 1 cutq]).
       assert (EX : seq_delivers X = map (fun e => (eseq e, eid e)) (Lo ++ Lm)).
       { unfold X. rewrite !seq_delivers_app. simpl. rewrite app_nil_r.
         rewrite map_app. f_equal; apply seq_delivers_delivers; intros e He; apply (HL e); apply in_or_app; auto. }
@@ -866,14 +897,15 @@ Proof.
       { intros e He. destruct (HL e He) as (A & B & C & _). auto. }
       match goal with |- Inv2 _ (if sliced then get_diff f c log vis ?M else ?M) => assert (H5 : Inv2 log M) end.
       { apply (inv2_step log m1 _ X); auto.
-        - intros s _. bst. destruct (Z.eqb_spec s 1); [subst; fold reqq; lia|].
+        - intros s Hs. bst. destruct (Z.eqb_spec s SEQ); [unfold SEQ in *; lia|].
+          destruct (Z.eqb_spec s 1); [subst; fold reqq; lia|].
           destruct (Z.eqb_spec s 0); [subst; fold reqp; lia|lia].
         - intros s id Hi. destruct (F2 s id Hi) as (e & A0 & A1 & A2 & A3 & A4).
           exists e. repeat split; auto. destruct (HL e A0) as (_ & _ & _ & [[B1 B2]|[B1 B2]]); bst.
           + assert (Es : s = 0) by lia. rewrite Es in A4 |- *.
-            change (0 =? 1) with false. change (0 =? 0) with true. cbv iota. lia.
+            change (0 =? SEQ) with false. change (0 =? 1) with false. change (0 =? 0) with true. cbv iota. lia.
           + assert (Es : s = 1) by lia. rewrite Es in A4 |- *.
-            change (1 =? 1) with true. cbv iota. lia. }
+            change (1 =? SEQ) with false. change (1 =? 1) with true. cbv iota. lia. }
       destruct sliced; auto. apply IH; auto; bst; simpl; lia.
 Qed.
 
@@ -940,6 +972,44 @@ Proof.
         destruct sliced; auto. apply IH; auto. bst. rewrite Z.eqb_refl. lia.
 Qed.
 
+Lemma box_item_inv2 : forall c log m e,
+  wf_log log -> NoDup (map eid log) -> In e log -> 0 <= eseq e -> Inv c log m -> Inv2 log m ->
+  Inv2 log (box_item m (eseq e) e).
+Proof.
+  intros c log m e Hwf Hu Hin Hr0 HI H2. unfold box_item.
+  set (s := eseq e) in *.
+  assert (Hfl : from_log log s (upd_of e)) by (exists e; auto).
+  assert (Hpn : pend_nz (mbox m s)).
+  { unfold pend_nz. eapply Forall_impl; [|apply (inv_pend _ _ _ HI s Hr0)].
+    intros u Hu0. eapply from_log_nz; eauto. }
+  pose proof (handle_spec (mbox m s) (upd_of e) Hpn (from_log_nz _ _ _ Hwf Hr0 Hfl)) as HS.
+  destruct (handle (mbox m s) (upd_of e)) as [b' evs]. destruct HS as [Hok _].
+  destruct Hok as [[-> Hst]|(s' & us & -> & Hne & Hch & Hst & _ & Hall)].
+  - destruct Hst as [Hst|(z & Hz & _)]; [|discriminate].
+    apply (inv2_step log m _ []); auto.
+    + intros s1 Hs1. simpl. destruct (Z.eqb_spec s1 s) as [->|]; lia.
+    + simpl. constructor.
+    + intros s1 id [].
+  - assert (Hus : Forall (from_log log s) us).
+    { apply Hall; [apply (inv_pend _ _ _ HI s Hr0)|exact Hfl]. }
+    destruct (chain_ids log s us _ _ Hwf Hu Hr0 Hus Hch) as (N & M & B).
+    assert (Esd : seq_delivers (evs_trace s [Dlv s' us]) = map (fun u => (s, uid u)) us).
+    { simpl. rewrite app_nil_r, seq_delivers_app.
+      replace (seq_delivers (if (s =? 1) && (s' =? 0) then [] else [Persist s s'])) with (@nil (Z * Z))
+        by (destruct ((s =? 1) && (s' =? 0)); reflexivity).
+      rewrite app_nil_r. clear - Hr0. induction us; simpl; auto.
+      destruct (Z.leb_spec 0 s); [|lia]. simpl. f_equal. exact IHus. }
+    apply (inv2_step log m _ (evs_trace s [Dlv s' us])); auto.
+    + intros s1 Hs1. simpl. destruct (Z.eqb_spec s1 s) as [->|]; lia.
+    + rewrite Esd. clear - N. induction us; simpl in *; [constructor|].
+      inversion N; subst. constructor; auto. rewrite in_map_iff. intros (v & Ev & Hv).
+      inversion Ev. apply H1. rewrite in_map_iff. eauto.
+    + intros s1 id Hi. rewrite Esd in Hi. rewrite in_map_iff in Hi. destruct Hi as (u & Eu & Hu1).
+      inversion Eu; subst. destruct (B u Hu1) as (e' & D1 & D2 & D3 & D4).
+      exists e'. simpl. rewrite Z.eqb_refl. repeat split; auto; lia.
+Qed.
+
+
 Lemma mbox_set_state_other : forall m s v s1, s1 <> s -> mbox (set_state m s v) s1 = mbox m s1.
 Proof. intros. unfold set_state. apply set_box_other; auto. Qed.
 Lemma mbox_clear_gaps_other : forall m s s1, s1 <> s -> mbox (clear_gaps m s) s1 = mbox m s1.
@@ -949,14 +1019,15 @@ Lemma get_diff_other : forall fuel c log vis m s, 2 <= s -> mbox (get_diff fuel 
 Proof.
   induction fuel as [|f IH]; intros c log vis m s Hs; [reflexivity|].
   cbn [get_diff]. cbv zeta.
-  assert (E1 : mbox (clear_gaps (clear_gaps m 0) 1) s = mbox m s).
-  { rewrite mbox_clear_gaps_other, mbox_clear_gaps_other; auto; lia. }
-  destruct (_ ++ _); [exact E1|].
+  assert (E1 : mbox (clear_gaps (clear_gaps (clear_gaps m 0) 1) SEQ) s = mbox m s).
+  { rewrite !mbox_clear_gaps_other; auto; unfold SEQ; lia. }
+  destruct (_ ++ _).
+  { rewrite mbox_set_state_other; [exact E1|unfold SEQ; lia]. }
   destruct (_ && _).
   - rewrite IH; auto. rewrite mbox_set_state_other; [|lia]. rewrite mbox_emit. exact E1.
-  - destruct (slice_cut _ _ _) as [cut sliced].
+  - destruct (slice_cut2 _ _ _ _ _) as [[cut cutq] sliced].
     destruct sliced; [rewrite IH; auto|];
-      rewrite mbox_set_state_other, mbox_set_state_other; try lia; rewrite mbox_emit; exact E1.
+      rewrite !mbox_set_state_other; try (unfold SEQ; lia); rewrite mbox_emit; exact E1.
 Qed.
 
 Lemma chan_diff_other : forall fuel c log vis s m s1, s1 <> s -> mbox (chan_diff fuel c log vis s m) s1 = mbox m s1.
@@ -972,26 +1043,151 @@ Proof.
       destruct sliced; [rewrite IH; auto|]; rewrite mbox_set_state_other; auto.
 Qed.
 
+Lemma mtracked_chan_diff : forall fuel c log vis s m, mtracked (chan_diff fuel c log vis s m) = mtracked m.
+Proof.
+  induction fuel as [|f IH]; intros c log vis s m; [reflexivity|].
+  cbn [chan_diff]. cbv zeta.
+  destruct (pend log s _ (vis s)); [reflexivity|].
+  destruct (_ && _); [reflexivity|].
+  destruct (slice_cut _ _ _) as [cut sliced]. destruct sliced; [rewrite IH|]; reflexivity.
+Qed.
+Lemma mtracked_get_diff : forall fuel c log vis m, mtracked (get_diff fuel c log vis m) = mtracked m.
+Proof.
+  induction fuel as [|f IH]; intros c log vis m; [reflexivity|].
+  cbn [get_diff]. cbv zeta.
+  destruct (_ ++ _); [reflexivity|].
+  destruct (_ && _); [rewrite IH; reflexivity|].
+  destruct (slice_cut2 _ _ _ _ _) as [[cut cutq] sliced]. destruct sliced; [rewrite IH|]; reflexivity.
+Qed.
+Lemma mtracked_box_item : forall m s e, mtracked (box_item m s e) = mtracked m.
+Proof. intros. unfold box_item. destruct (handle _ _). reflexivity. Qed.
+Lemma mbox_box_item_other : forall m s e s1, s1 <> s -> mbox (box_item m s e) s1 = mbox m s1.
+Proof. intros. unfold box_item. destruct (handle _ _). rewrite mbox_emit. apply set_box_other; auto. Qed.
+
+(* channels without a worker still sit at their base, which is not beyond the horizon *)
+Definition Hun (c : config) (vis : Z -> Z) (m : mgr) : Prop :=
+  forall s, 2 <= s < nseq c -> mtracked m s = false -> bstate (mbox m s) <= vis s.
+
+Lemma set_tracked_inv2 : forall log m s, Inv2 log m -> Inv2 log (set_tracked m s).
+Proof. intros log m s H. constructor; simpl; apply H. Qed.
+Lemma add_cont_inv2 : forall log m cid ids p, Inv2 log m -> Inv2 log (add_cont m cid ids p).
+Proof. intros log m cid ids p H. constructor; simpl; apply H. Qed.
+Lemma set_box_seq_inv2 : forall log m b, Inv2 log m -> Inv2 log (set_box m SEQ b).
+Proof.
+  intros log m b H. constructor; simpl; [|apply H].
+  intros s id Hs Hin. destruct (Z.eqb_spec s SEQ); [unfold SEQ in *; lia|]. apply (inv2_old _ _ H); auto.
+Qed.
+
+Lemma push_item_inv2 : forall c log vis m e,
+  wf_log log -> NoDup (map eid log) -> In e log -> Inv c log m -> Inv2 log m -> Hun c vis m ->
+  Inv2 log (push_item c log vis m e).
+Proof.
+  intros c log vis m e Hwf Hu Hin HI H2 Hn. unfold push_item.
+  destruct ((0 <=? eseq e) && (eseq e <? nseq c)) eqn:Hrange; [|exact H2].
+  apply andb_prop in Hrange. destruct Hrange as [Hr0 Hr1]. apply Z.leb_le in Hr0. apply Z.ltb_lt in Hr1.
+  destruct ((eseq e <? 2) || mtracked m (eseq e)) eqn:Et.
+  - apply (box_item_inv2 c); auto.
+  - destruct (ustart (upd_of e) =? base c (eseq e)); [|exact H2].
+    apply orb_false_elim in Et. destruct Et as [Et1 Et2]. apply Z.ltb_ge in Et1.
+    set (m0 := set_tracked (emit m [Persist (eseq e) (base c (eseq e))]) (eseq e)).
+    assert (HI0 : Inv c log m0).
+    { apply set_tracked_inv. apply emit_persist_inv; auto. intros; lia. }
+    assert (H20 : Inv2 log m0).
+    { apply set_tracked_inv2. apply (inv2_step log m _ [Persist (eseq e) (base c (eseq e))]); auto.
+      - intros; simpl; lia.
+      - simpl. constructor.
+      - intros s id []. }
+    apply (box_item_inv2 c); auto.
+    + apply chan_diff_inv; auto.
+    + apply chan_diff_inv2; auto. apply (Hn (eseq e)); auto; lia.
+Qed.
+
+Lemma push_item_Hun : forall c log vis m e, Hun c vis m -> Hun c vis (push_item c log vis m e).
+Proof.
+  intros c log vis m e Hn s Hs Ht. unfold push_item in *.
+  destruct ((0 <=? eseq e) && (eseq e <? nseq c)); [|apply Hn; auto].
+  destruct (Z.eq_dec s (eseq e)) as [->|Hne].
+  - destruct ((eseq e <? 2) || mtracked m (eseq e)) eqn:Et.
+    + rewrite mtracked_box_item in Ht. apply orb_true_iff in Et. destruct Et as [Et|Et]; [apply Z.ltb_lt in Et; lia|congruence].
+    + destruct (ustart (upd_of e) =? base c (eseq e)); [|apply Hn; auto].
+      rewrite mtracked_box_item, mtracked_chan_diff in Ht. simpl in Ht. rewrite Z.eqb_refl in Ht. discriminate.
+  - destruct ((eseq e <? 2) || mtracked m (eseq e)).
+    + rewrite mtracked_box_item in Ht. rewrite mbox_box_item_other; auto.
+    + destruct (ustart (upd_of e) =? base c (eseq e)); [|apply Hn; auto].
+      rewrite mtracked_box_item, mtracked_chan_diff in Ht. simpl in Ht.
+      destruct (Z.eqb_spec s (eseq e)); [contradiction|].
+      rewrite mbox_box_item_other, chan_diff_other; auto. simpl. apply Hn; auto.
+Qed.
+
+Lemma push_all : forall c log vis m ids,
+  wf_log log -> NoDup (map eid log) -> Inv c log m -> Inv2 log m -> Hun c vis m ->
+  Inv2 log (push c log vis m ids) /\ Hun c vis (push c log vis m ids).
+Proof.
+  intros c log vis m ids Hwf Hu HI H2 Hn. unfold push.
+  set (items := isort route_key (flat_map (find_entry log) ids)).
+  assert (Hitems : forall e, In e items -> In e log).
+  { intros e He. unfold items in He. rewrite isort_in in He. rewrite in_flat_map in He.
+    destruct He as (id & _ & He). eapply find_entry_in; eauto. }
+  assert (Hfold : Inv c log (fold_left (push_item c log vis) items m) /\ Inv2 log (fold_left (push_item c log vis) items m)
+                  /\ Hun c vis (fold_left (push_item c log vis) items m)).
+  { clearbody items. revert m HI H2 Hn. induction items as [|e t IH]; intros m HI H2 Hn; simpl; auto.
+    apply IH.
+    - intros; apply Hitems; simpl; auto.
+    - apply push_item_inv; auto. apply Hitems; simpl; auto.
+    - apply push_item_inv2; auto. apply Hitems; simpl; auto.
+    - apply push_item_Hun; auto. }
+  destruct Hfold as (_ & HF & HH). split; [|exact HH].
+  assert (E : seq_delivers (map (fun e => Deliver (-1) (eid e)) (filter (fun e => eseq e <? 0) items)) = []).
+  { induction (filter (fun e => eseq e <? 0) items); simpl; auto. }
+  apply (inv2_step log (fold_left (push_item c log vis) items m) _ (map (fun e => Deliver (-1) (eid e)) (filter (fun e => eseq e <? 0) items))); auto.
+  - intros; simpl; lia.
+  - rewrite E. constructor.
+  - intros s id Hi. rewrite E in Hi. destruct Hi.
+Qed.
+
+Lemma pushc_apply_inv2 : forall c log vis m cid sq ids p,
+  wf_log log -> NoDup (map eid log) -> Inv c log m -> Inv2 log m -> Hun c vis m ->
+  Inv2 log (fst (fst (pushc_apply c log vis m cid sq ids p))).
+Proof.
+  intros c log vis m cid sq ids p Hwf Hu HI H2 Hn. unfold pushc_apply.
+  destruct (sq =? 0); [simpl; apply push_all; auto|].
+  destruct (handle _ _) as [sb evs]. simpl.
+  assert (H0 : Inv c log (add_cont m cid ids p) /\ Inv2 log (add_cont m cid ids p) /\ Hun c vis (add_cont m cid ids p)).
+  { split; [apply add_cont_inv; auto|]. split; [apply add_cont_inv2; auto|exact Hn]. }
+  revert H0. generalize (add_cont m cid ids p). induction (dlv_upds evs) as [|u t IHl]; intros m0 (A & B & C); simpl; auto.
+  apply IHl. split; [apply push_inv; auto|]. apply push_all; auto.
+Qed.
+
 Lemma mstep_inv2 : forall c log m o,
   wf_log log -> NoDup (map eid log) -> Inv c log m -> Inv2 log m ->
-  (forall s, 0 <= s < Z.max 2 (nseq c) -> bstate (mbox m s) <= op_vis o s) -> Inv2 log (mstep c log m o).
+  (forall s, 0 <= s < Z.max 2 (nseq c) -> bstate (mbox m s) <= op_vis o s) -> mid_ok c log m o ->
+  Inv2 log (mstep c log m o).
 Proof.
-  intros c log m o Hwf Hu HI H2 Hv. destruct o; cbn [mstep]; simpl in Hv.
-  - apply push_inv2; auto.
+  intros c log m o Hwf Hu HI H2 Hv Hmid. destruct o; cbn [mstep]; simpl in Hv.
+  - assert (Hn : Hun c vis m) by (intros s Hs _; apply Hv; lia).
+    pose proof (pushc_apply_inv2 c log vis m cid sq ids p Hwf Hu HI H2 Hn) as H.
+    simpl in Hmid.
+    destruct (pushc_apply c log vis m cid sq ids p) as [[m1 rc] sb]. simpl in H, Hmid.
+    assert (H3 : Inv2 log (if rc then get_diff (fuel_of log) c log vis m1 else m1)).
+    { destruct rc; auto. destruct (Hmid eq_refl). apply get_diff_inv2; auto. }
+    destruct sb; auto. apply set_box_seq_inv2; auto.
   - apply get_diff_inv2; auto; apply Hv; lia.
-  - destruct ((2 <=? s) && (s <? nseq c)) eqn:E; auto. apply andb_prop in E. destruct E as [E E']. apply Z.leb_le in E. apply Z.ltb_lt in E'.
+  - destruct ((2 <=? s) && (s <? nseq c) && mtracked m s) eqn:E; auto.
+    rewrite !andb_true_iff, Z.leb_le, Z.ltb_lt in E. destruct E as [[E E'] _].
     apply chan_diff_inv2; auto; try lia. apply Hv; lia.
   - apply get_diff_inv2; auto; apply Hv; lia.
-  - destruct ((2 <=? s) && (s <? nseq c)) eqn:E; auto. apply andb_prop in E. destruct E as [E E']. apply Z.leb_le in E. apply Z.ltb_lt in E'.
+  - destruct ((2 <=? s) && (s <? nseq c) && mtracked m s) eqn:E; auto.
+    rewrite !andb_true_iff, Z.leb_le, Z.ltb_lt in E. destruct E as [[E E'] _].
     apply chan_diff_inv2; auto; try lia. apply Hv; lia.
   - assert (H : Inv2 log (get_diff (fuel_of log) c log vis m)) by (apply get_diff_inv2; auto; apply Hv; lia).
-    assert (Hv' : forall s, In s (chan_seqs c) -> 2 <= s /\ bstate (mbox (get_diff (fuel_of log) c log vis m) s) <= vis s).
-    { intros s Hs. unfold chan_seqs in Hs. rewrite in_map_iff in Hs. destruct Hs as (i & <- & Hi).
+    assert (Hv' : forall s, In s (filter (tracked0 c) (chan_seqs c)) -> 2 <= s /\ bstate (mbox (get_diff (fuel_of log) c log vis m) s) <= vis s).
+    { intros s Hs. rewrite filter_In in Hs. destruct Hs as [Hs _].
+      unfold chan_seqs in Hs. rewrite in_map_iff in Hs. destruct Hs as (i & <- & Hi).
       apply in_seq in Hi.
       split; [lia|]. rewrite get_diff_other; [|lia]. apply Hv; lia. }
-    assert (Hnd : NoDup (chan_seqs c)).
-    { unfold chan_seqs. apply FinFun.Injective_map_NoDup; [|apply seq_NoDup]. intros a b E. lia. }
-    revert H Hv' Hnd. generalize (get_diff (fuel_of log) c log vis m). induction (chan_seqs c) as [|s t IHl]; intros m0 H0 Hv0 Hnd; cbn [fold_left]; auto.
+    assert (Hnd : NoDup (filter (tracked0 c) (chan_seqs c))).
+    { apply NoDup_filter. unfold chan_seqs. apply FinFun.Injective_map_NoDup; [|apply seq_NoDup]. intros a b E. lia. }
+    revert H Hv' Hnd. generalize (get_diff (fuel_of log) c log vis m). induction (filter (tracked0 c) (chan_seqs c)) as [|s t IHl]; intros m0 H0 Hv0 Hnd; cbn [fold_left]; auto.
     inversion Hnd; subst. apply IHl; auto.
     + apply chan_diff_inv2; auto; [destruct (Hv0 s (or_introl eq_refl)); lia|apply Hv0; simpl; auto].
     + intros s1 Hs1. destruct (Hv0 s1 (or_intror Hs1)) as [A B]. split; auto.
@@ -1003,7 +1199,7 @@ Lemma mrun_from_inv2 : forall c log ops m,
   Inv2 log (fold_left (mstep c log) ops m).
 Proof.
   intros c log ops. induction ops as [|o t IH]; intros m Hwf Hu HI H2 Hv; simpl; auto.
-  destruct Hv as [Hv1 Hv2]. apply IH; auto.
+  destruct Hv as (Hv1 & Hvm & Hv2). apply IH; auto.
   - apply mstep_inv; auto.
   - apply mstep_inv2; auto.
 Qed.
@@ -1018,6 +1214,7 @@ Proof.
   - apply mgr_init_inv.
   - constructor; simpl; [intros s id _ []|constructor].
 Qed.
+
 (* ---------- the difference recursion terminates within its fuel ---------- *)
 Lemma filter_len_le : forall A (f g : A -> bool) l,
   (forall x, g x = true -> f x = true) -> (length (filter g l) <= length (filter f l))%nat.
@@ -1038,9 +1235,29 @@ Proof.
     + rewrite (H a G). simpl. assert (length (filter g t) < length (filter f t))%nat by (eapply IH; eauto). lia.
     + assert (length (filter g t) < length (filter f t))%nat by (eapply IH; eauto). destruct (f a); simpl; lia.
 Qed.
-Lemma pend_length : forall log s a b,
-  length (pend log s a b) = length (filter (fun e => (eseq e =? s) && (a <? epos e) && (epos e <=? b)) log).
+Lemma filter_disjoint_len : forall A (f g : A -> bool) l,
+  (forall x, f x = true -> g x = false) -> (length (filter f l) + length (filter g l) <= length l)%nat.
+Proof.
+  induction l as [|a t IH]; intros H; simpl; auto.
+  specialize (IH H). destruct (f a) eqn:F; [rewrite (H a F)|destruct (g a)]; simpl; lia.
+Qed.
+Definition rng (s a b : Z) (e : entry) : bool := (eseq e =? s) && (a <? epos e) && (epos e <=? b).
+Lemma pend_length : forall log s a b, length (pend log s a b) = length (filter (rng s a b) log).
 Proof. intros. unfold pend. apply Permutation_length, isort_perm. Qed.
+Lemma pend_len_mono : forall log s a a' b, a <= a' -> (length (pend log s a' b) <= length (pend log s a b))%nat.
+Proof.
+  intros. rewrite !pend_length. apply filter_len_le. unfold rng. intros x Hx.
+  rewrite !andb_true_iff, Z.eqb_eq, Z.ltb_lt, Z.leb_le in *. lia.
+Qed.
+Lemma pend_len_lt : forall log s a a' b x,
+  a <= a' -> In x log -> eseq x = s -> a < epos x <= b -> epos x <= a' ->
+  (length (pend log s a' b) < length (pend log s a b))%nat.
+Proof.
+  intros log s a a' b x Ha Hin Hs Hr Hx. rewrite !pend_length. apply (filter_len_lt _ _ _ log x); auto; unfold rng.
+  - intros y Hy. rewrite !andb_true_iff, Z.eqb_eq, Z.ltb_lt, Z.leb_le in *. lia.
+  - rewrite !andb_true_iff, Z.eqb_eq, Z.ltb_lt, Z.leb_le. lia.
+  - rewrite !andb_false_iff, Z.ltb_ge. left. right. lia.
+Qed.
 
 Lemma pend_shrinks : forall log s a b lim cut,
   slice_cut lim (pend log s a b) b = (cut, true) ->
@@ -1052,47 +1269,79 @@ Proof.
   set (x := nth (Z.to_nat (lim - 1)) (pend log s a b) dflt_entry).
   assert (Hx : In x (pend log s a b)) by (apply nth_In; lia).
   rewrite pend_in in Hx. destruct Hx as (X1 & X2 & X3).
-  rewrite !pend_length. apply (filter_len_lt _ _ _ log x); auto.
-  - intros y Hy. rewrite !andb_true_iff in *. rewrite Z.eqb_eq, Z.ltb_lt, Z.leb_le in *. lia.
-  - rewrite !andb_true_iff, Z.eqb_eq, Z.ltb_lt, Z.leb_le. lia.
-  - rewrite !andb_false_iff, Z.ltb_ge. left. right. lia.
+  apply (pend_len_lt log s a (epos x) b x); auto; lia.
 Qed.
 
-Lemma bstate_clear_gaps : forall m s s1, bstate (mbox (clear_gaps m s) s1) = bstate (mbox m s1).
-Proof. intros. unfold clear_gaps, set_box. simpl. destruct (s1 =? s) eqn:E; [apply Z.eqb_eq in E; subst|]; reflexivity. Qed.
-
-(* once the pts position equals the horizon one more fetch finishes *)
-Lemma get_diff_fuel_at_horizon : forall f c log vis m,
-  moof m = false -> bstate (mbox m 0) = vis 0 -> moof (get_diff (S f) c log vis m) = false.
+Lemma max_pos_ge : forall s l d, d <= max_pos s d l.
 Proof.
-  intros f c log vis m Hm Hs. cbn [get_diff]. cbv zeta.
-  rewrite !bstate_clear_gaps, Hs, pend_same_nil. simpl app.
-  destruct (pend log 1 _ (vis 1)); [exact Hm|].
-  replace ((0 <? tl_thr c) && (vis 0 - vis 0 >? tl_thr c)) with false.
-  - unfold slice_cut. simpl length. replace ((0 <? slice_lim c) && (slice_lim c <? Z.of_nat 0)) with false; [exact Hm|].
-    symmetry. apply andb_false_iff. destruct (Z.ltb_spec 0 (slice_lim c)); [right; apply Z.ltb_ge; simpl; lia|left; reflexivity].
-  - symmetry. apply andb_false_iff. destruct (Z.ltb_spec 0 (tl_thr c)); [right|left; reflexivity].
-    rewrite Z.sub_diag. rewrite Z.gtb_ltb. apply Z.ltb_ge. lia.
+  unfold max_pos. induction l as [|a t IH]; intros d; simpl; [lia|].
+  destruct (eseq a =? s); [specialize (IH (Z.max d (epos a))); lia|apply IH].
 Qed.
+Lemma max_pos_elem : forall s l d x, In x l -> eseq x = s -> epos x <= max_pos s d l.
+Proof.
+  unfold max_pos. induction l as [|a t IH]; intros d x Hin Hs; [destruct Hin|]. simpl.
+  destruct Hin as [->|Hin].
+  - rewrite Hs, Z.eqb_refl. pose proof (max_pos_ge s t (Z.max d (epos x))). unfold max_pos in H. lia.
+  - destruct (eseq a =? s); eapply IH; eauto.
+Qed.
+
+Lemma slice2_shrinks : forall lim log vis rp rq cut cutq,
+  slice_cut2 lim log vis rp rq = (cut, cutq, true) ->
+  rp <= cut /\ rq <= cutq /\
+  (length (pend log 0%Z cut (vis 0%Z)) + length (pend log 1%Z cutq (vis 1%Z)) <
+   length (pend log 0%Z rp (vis 0%Z)) + length (pend log 1%Z rq (vis 1%Z)))%nat.
+Proof.
+  intros lim log vis rp rq cut cutq H. unfold slice_cut2 in H.
+  destruct ((0 <? lim) && (lim <? Z.of_nat (length (filter (in_range vis rp rq) log)))) eqn:Eb; inversion H; subst; clear H.
+  apply andb_prop in Eb. destruct Eb as [Eb1 Eb2]. apply Z.ltb_lt in Eb1, Eb2.
+  set (pre := firstn (Z.to_nat lim) (filter (in_range vis rp rq) log)).
+  pose proof (max_pos_ge 0 pre rp) as G0. pose proof (max_pos_ge 1 pre rq) as G1.
+  split; [exact G0|]. split; [exact G1|].
+  destruct (filter (in_range vis rp rq) log) as [|x rest] eqn:Ef; [simpl in Eb2; lia|].
+  assert (Hxp : In x pre).
+  { unfold pre. destruct (Z.to_nat lim) eqn:En; [lia|]. simpl. auto. }
+  assert (Hxf : In x (filter (in_range vis rp rq) log)) by (rewrite Ef; simpl; auto).
+  rewrite filter_In in Hxf. destruct Hxf as [Hxl Hxr]. unfold in_range in Hxr.
+  rewrite orb_true_iff, !andb_true_iff, !Z.eqb_eq, !Z.ltb_lt, !Z.leb_le in Hxr.
+  pose proof (pend_len_mono log 0 rp (max_pos 0 rp pre) (vis 0) G0).
+  pose proof (pend_len_mono log 1 rq (max_pos 1 rq pre) (vis 1) G1).
+  destruct Hxr as [[[S0 A] B]|[[S1 A] B]].
+  - pose proof (max_pos_elem 0 pre rp x Hxp S0).
+    pose proof (pend_len_lt log 0 rp (max_pos 0 rp pre) (vis 0) x G0 Hxl S0 ltac:(lia) ltac:(lia)). lia.
+  - pose proof (max_pos_elem 1 pre rq x Hxp S1).
+    pose proof (pend_len_lt log 1 rq (max_pos 1 rq pre) (vis 1) x G1 Hxl S1 ltac:(lia) ltac:(lia)). lia.
+Qed.
+
+Definition tlb (c : config) (vis : Z -> Z) (m : mgr) : bool := (0 <? tl_thr c) && (vis 0 - bstate (mbox m 0) >? tl_thr c).
+Definition mu (log : list entry) (vis : Z -> Z) (m : mgr) : nat :=
+  (length (pend log 0%Z (bstate (mbox m 0%Z)) (vis 0%Z)) + length (pend log 1%Z (bstate (mbox m 1%Z)) (vis 1%Z)))%nat.
 
 Lemma get_diff_fuel : forall fuel c log vis m,
-  moof m = false -> (length (pend log 0%Z (bstate (mbox m 0%Z)) (vis 0%Z)) + 2 <= fuel)%nat ->
+  moof m = false -> (mu log vis m + (if tlb c vis m then 1 else 0) + 1 <= fuel)%nat ->
   moof (get_diff fuel c log vis m) = false.
 Proof.
   induction fuel as [|f IH]; intros c log vis m Hm Hf; [lia|].
   cbn [get_diff]. cbv zeta.
-  set (m1 := clear_gaps (clear_gaps m 0) 1).
+  set (m1 := clear_gaps (clear_gaps (clear_gaps m 0) 1) SEQ).
   assert (E0 : bstate (mbox m1 0) = bstate (mbox m 0)) by (unfold m1; rewrite !bstate_clear_gaps; reflexivity).
-  rewrite E0.
+  assert (E1 : bstate (mbox m1 1) = bstate (mbox m 1)) by (unfold m1; rewrite !bstate_clear_gaps; reflexivity).
+  rewrite E0, E1. unfold mu, tlb in Hf.
   destruct (_ ++ _); [exact Hm|].
-  destruct (_ && _).
-  - destruct f as [|f']; [lia|]. apply get_diff_fuel_at_horizon; [exact Hm|].
-    rewrite bstate_set_state. reflexivity.
-  - destruct (slice_cut (slice_lim c) (pend log 0 (bstate (mbox m 0)) (vis 0)) (vis 0)) as [cut sliced] eqn:Ec.
+  destruct ((0 <? tl_thr c) && (vis 0 - bstate (mbox m 0) >? tl_thr c)) eqn:Et.
+  - apply IH; [exact Hm|]. unfold mu, tlb. bst. change (0 =? 0) with true. change (1 =? 0) with false. cbv iota.
+    rewrite E1, pend_same_nil. simpl length.
+    replace ((0 <? tl_thr c) && (vis 0 - vis 0 >? tl_thr c)) with false; [lia|].
+    symmetry. apply andb_false_iff. destruct (Z.ltb_spec 0 (tl_thr c)); [right|left; reflexivity].
+    rewrite Z.sub_diag, Z.gtb_ltb. apply Z.ltb_ge. lia.
+  - destruct (slice_cut2 (slice_lim c) log vis (bstate (mbox m 0)) (bstate (mbox m 1))) as [[cut cutq] sliced] eqn:Ec.
     destruct sliced; [|exact Hm].
-    apply IH; [exact Hm|].
-    rewrite bstate_set_state. change (0 =? 1) with false. cbv iota. rewrite bstate_set_state. rewrite Z.eqb_refl.
-    apply pend_shrinks in Ec. lia.
+    apply slice2_shrinks in Ec. destruct Ec as (G0 & G1 & Hlt).
+    apply IH; [exact Hm|]. unfold mu, tlb. bst.
+    change (0 =? SEQ) with false. change (1 =? SEQ) with false. change (0 =? 1) with false.
+    change (1 =? 1) with true. change (0 =? 0) with true. cbv iota.
+    replace ((0 <? tl_thr c) && (vis 0 - cut >? tl_thr c)) with false; [lia|].
+    symmetry. apply andb_false_iff. apply andb_false_iff in Et. destruct Et as [Et|Et]; [left; exact Et|right].
+    rewrite Z.gtb_ltb in *. apply Z.ltb_ge in Et. apply Z.ltb_ge. lia.
 Qed.
 
 Lemma chan_diff_fuel : forall fuel c log vis s m,
@@ -1113,30 +1362,61 @@ Qed.
 
 Lemma pend_le_log : forall log s a b, (length (pend log s a b) <= length log)%nat.
 Proof.
-  intros. rewrite pend_length. generalize (fun e : entry => (eseq e =? s) && (a <? epos e) && (epos e <=? b)).
+  intros. rewrite pend_length. generalize (rng s a b).
   intros f. induction log as [|x t IH]; simpl; auto. destruct (f x); simpl; lia.
 Qed.
-
-Lemma push_moof : forall c log m ids, moof (push c log m ids) = moof m.
+Lemma mu_le_log : forall log vis m, (mu log vis m <= length log)%nat.
 Proof.
-  intros. unfold push. simpl.
-  generalize (isort route_key (flat_map (find_entry log) ids)). intros items. revert m.
-  induction items as [|e t IH]; intros m; simpl; auto. rewrite IH. unfold push_item.
-  destruct (_ && _); auto. destruct (handle _ _); reflexivity.
+  intros. unfold mu. rewrite !pend_length. apply filter_disjoint_len.
+  unfold rng. intros x Hx. rewrite !andb_true_iff, Z.eqb_eq in Hx. destruct Hx as [[Hx _] _].
+  rewrite Hx. reflexivity.
+Qed.
+
+Lemma moof_box_item : forall m s e, moof (box_item m s e) = moof m.
+Proof. intros. unfold box_item. destruct (handle _ _). reflexivity. Qed.
+Lemma push_item_moof : forall c log vis m e, moof m = false -> moof (push_item c log vis m e) = false.
+Proof.
+  intros c log vis m e Hm. unfold push_item.
+  destruct (_ && _); auto. destruct (_ || _); [rewrite moof_box_item; auto|].
+  destruct (_ =? _); auto. rewrite moof_box_item. apply chan_diff_fuel; [exact Hm|].
+  unfold fuel_of. match goal with |- (length (pend ?l ?s ?a ?b) + 1 <= _)%nat => pose proof (pend_le_log l s a b) end. lia.
+Qed.
+Lemma push_moof : forall c log vis m ids, moof m = false -> moof (push c log vis m ids) = false.
+Proof.
+  intros c log vis m ids Hm. unfold push. simpl.
+  generalize (isort route_key (flat_map (find_entry log) ids)). intros items. revert m Hm.
+  induction items as [|e t IH]; intros m Hm; simpl; auto. apply IH. apply push_item_moof; auto.
+Qed.
+
+Lemma get_diff_fuel_log : forall c log vis m, moof m = false -> moof (get_diff (fuel_of log) c log vis m) = false.
+Proof.
+  intros. apply get_diff_fuel; auto. unfold fuel_of. pose proof (mu_le_log log vis m). destruct (tlb c vis m); lia.
+Qed.
+Lemma chan_diff_fuel_log : forall c log vis s m, moof m = false -> moof (chan_diff (fuel_of log) c log vis s m) = false.
+Proof.
+  intros. apply chan_diff_fuel; auto. unfold fuel_of. pose proof (pend_le_log log s (bstate (mbox m s)) (vis s)). lia.
 Qed.
 
 Lemma mstep_moof : forall c log m o, moof m = false -> moof (mstep c log m o) = false.
 Proof.
   intros c log m o Hm. destruct o; cbn [mstep].
-  - rewrite push_moof; auto.
-  - apply get_diff_fuel; auto. unfold fuel_of. pose proof (pend_le_log log 0 (bstate (mbox m 0)) (vis 0)). lia.
-  - destruct (_ && _); auto. apply chan_diff_fuel; auto. unfold fuel_of. pose proof (pend_le_log log s (bstate (mbox m s)) (vis s)). lia.
-  - apply get_diff_fuel; auto. unfold fuel_of. pose proof (pend_le_log log 0 (bstate (mbox m 0)) (vis 0)). lia.
-  - destruct (_ && _); auto. apply chan_diff_fuel; auto. unfold fuel_of. pose proof (pend_le_log log s (bstate (mbox m s)) (vis s)). lia.
-  - assert (H : moof (get_diff (fuel_of log) c log vis m) = false).
-    { apply get_diff_fuel; auto. unfold fuel_of. pose proof (pend_le_log log 0 (bstate (mbox m 0)) (vis 0)). lia. }
-    revert H. generalize (get_diff (fuel_of log) c log vis m). induction (chan_seqs c) as [|s t IHl]; intros m0 H0; cbn [fold_left]; auto.
-    apply IHl. apply chan_diff_fuel; auto. unfold fuel_of. pose proof (pend_le_log log s (bstate (mbox m0 s)) (vis s)). lia.
+  - assert (H : moof (fst (fst (pushc_apply c log vis m cid sq ids p))) = false).
+    { unfold pushc_apply. destruct (sq =? 0); [simpl; apply push_moof; auto|].
+      destruct (handle _ _) as [sb evs]. simpl.
+      assert (H0 : moof (add_cont m cid ids p) = false) by exact Hm.
+      revert H0. generalize (add_cont m cid ids p). induction (dlv_upds evs); intros m0 H0; simpl; auto.
+      apply IHl. apply push_moof; auto. }
+    destruct (pushc_apply c log vis m cid sq ids p) as [[m1 rc] sb]. simpl in H.
+    assert (H2 : moof (if rc then get_diff (fuel_of log) c log vis m1 else m1) = false).
+    { destruct rc; auto. apply get_diff_fuel_log; auto. }
+    destruct sb; auto.
+  - apply get_diff_fuel_log; auto.
+  - destruct (_ && _); auto. apply chan_diff_fuel_log; auto.
+  - apply get_diff_fuel_log; auto.
+  - destruct (_ && _); auto. apply chan_diff_fuel_log; auto.
+  - assert (H : moof (get_diff (fuel_of log) c log vis m) = false) by (apply get_diff_fuel_log; auto).
+    revert H. generalize (get_diff (fuel_of log) c log vis m). induction (filter (tracked0 c) (chan_seqs c)) as [|s t IHl]; intros m0 H0; cbn [fold_left]; auto.
+    apply IHl. apply chan_diff_fuel_log; auto.
 Qed.
 
 Theorem never_out_of_fuel : forall c log ops, moof (mrun c log ops) = false.
@@ -1152,7 +1432,7 @@ Theorem no_loss_common_total : forall c log ops vis,
               accounted s e (mtr (mrun c log (ops ++ [MTooLong vis]))).
 Proof. intros. eapply no_loss_common; eauto. apply never_out_of_fuel. Qed.
 Theorem no_loss_channel_total : forall c log ops vis s,
-  wf_log log -> 2 <= s < nseq c ->
+  wf_log log -> 2 <= s < nseq c -> mtracked (mrun c log ops) s = true ->
   forall e, In e log -> eseq e = s -> base c s < epos e <= vis s ->
             accounted s e (mtr (mrun c log (ops ++ [MChanTooLong vis s]))).
 Proof. intros. eapply no_loss_channel; eauto. apply never_out_of_fuel. Qed.
@@ -1164,7 +1444,52 @@ Theorem restart_common_total : forall c log ops pre post ops2 vis,
 Proof. intros. eapply restart_common; eauto. apply never_out_of_fuel. Qed.
 Theorem restart_channel_total : forall c log ops pre post ops2 vis s,
   wf_log log -> 2 <= s < nseq c -> mtr (mrun c log ops) = pre ++ post ->
+  mtracked (mrun (rebase c (fun s => persisted c s pre)) log ops2) s = true ->
   forall e, In e log -> eseq e = s -> base c s < epos e <= vis s ->
             accounted s e pre \/
             accounted s e (mtr (mrun (rebase c (fun s => persisted c s pre)) log (ops2 ++ [MChanTooLong vis s]))).
 Proof. intros. eapply restart_channel; eauto. apply never_out_of_fuel. Qed.
+
+(* the explicit recovery signal: an unnumbered container carrying updatePtsChanged always ends
+   with a completed getDifference *)
+Theorem no_loss_pts_changed : forall c log ops vis cid ids,
+  wf_log log ->
+  forall s e, (s = 0 \/ s = 1) -> In e log -> eseq e = s -> base c s < epos e <= vis s ->
+              accounted s e (mtr (mrun c log (ops ++ [MPushC vis cid 0 ids true]))).
+Proof.
+  intros c log ops vis cid ids Hwf s e Hs H1 H2 H4.
+  assert (HI : Inv c log (mrun c log (ops ++ [MPushC vis cid 0 ids true]))) by (apply mrun_inv; auto).
+  pose proof (never_out_of_fuel c log (ops ++ [MPushC vis cid 0 ids true])) as Hf.
+  rewrite mrun_snoc in *. cbn [mstep] in *.
+  destruct (pushc_apply c log vis (mrun c log ops) cid 0 ids true) as [[m1 rc] sb] eqn:Ep.
+  unfold pushc_apply in Ep. change (0 =? 0) with true in Ep. cbv iota in Ep. injection Ep as <- <- <-.
+  assert (Hf' : moof (get_diff (fuel_of log) c log vis (push c log vis (mrun c log ops) ids)) = false) by exact Hf.
+  pose proof (get_diff_drained _ _ _ _ _ Hf') as Hd. apply app_eq_nil in Hd. destruct Hd as [Hd0 Hd1].
+  destruct Hs as [->| ->].
+  - apply (drained_cov c log _ 0 (vis 0) e HI Hd0 H1 H2); lia.
+  - apply (drained_cov c log _ 1 (vis 1) e HI Hd1 H1 H2); lia.
+Qed.
+(* numbered containers: if applySeq applies a batch in which ANY container carries
+   updatePtsChanged, a completed getDifference follows *)
+Theorem no_loss_pts_changed_seq : forall c log ops vis cid sq ids p,
+  wf_log log -> sq <> 0 ->
+  snd (fst (pushc_apply c log vis (mrun c log ops) cid sq ids p)) = true ->
+  forall s e, (s = 0 \/ s = 1) -> In e log -> eseq e = s -> base c s < epos e <= vis s ->
+              accounted s e (mtr (mrun c log (ops ++ [MPushC vis cid sq ids p]))).
+Proof.
+  intros c log ops vis cid sq ids p Hwf Hsq Hrc s e Hs H1 H2 H4.
+  assert (HI : Inv c log (mrun c log (ops ++ [MPushC vis cid sq ids p]))) by (apply mrun_inv; auto).
+  pose proof (never_out_of_fuel c log (ops ++ [MPushC vis cid sq ids p])) as Hf.
+  rewrite mrun_snoc in *. cbn [mstep] in *.
+  destruct (pushc_apply c log vis (mrun c log ops) cid sq ids p) as [[m1 rc] sb] eqn:Ep. simpl in Hrc. subst rc.
+  assert (Esb : exists b, sb = Some b).
+  { unfold pushc_apply in Ep. destruct (Z.eqb_spec sq 0); [contradiction|]. destruct (handle _ _). inversion Ep. eauto. }
+  destruct Esb as [b ->].
+  assert (Hf' : moof (get_diff (fuel_of log) c log vis m1) = false) by exact Hf.
+  pose proof (get_diff_drained _ _ _ _ _ Hf') as Hd. apply app_eq_nil in Hd. destruct Hd as [Hd0 Hd1].
+  assert (Hb : forall s1, 0 <= s1 -> mbox (set_box (get_diff (fuel_of log) c log vis m1) SEQ b) s1 = mbox (get_diff (fuel_of log) c log vis m1) s1).
+  { intros s1 Hs1. apply set_box_other. unfold SEQ; lia. }
+  destruct Hs as [->| ->].
+  - apply (drained_cov c log _ 0 (vis 0) e HI); auto; try lia; rewrite Hb; auto; lia.
+  - apply (drained_cov c log _ 1 (vis 1) e HI); auto; try lia; rewrite Hb; auto; lia.
+Qed.
